@@ -17,6 +17,9 @@ from lib import repo  # noqa: F401
 M = 10 ** 6
 
 
+_COMPARERS = {}
+
+
 def fx(v) -> int:
     return int(round(float(v) * M))
 
@@ -45,7 +48,8 @@ def observe(cmp_):
 
 def run_real(case):
     from src.diagnostic.alignment_comparer import AlignmentComparer, AlignmentRowComparer
-    comparer = AlignmentComparer(AlignmentRowComparer(case["flag"]))
+    # one comparer per flag for all cases (compare_alignments builds one and may be called repeatedly)
+    comparer = _COMPARERS.setdefault(bool(case["flag"]), AlignmentComparer(AlignmentRowComparer(case["flag"])))
     A, B = build(case["A"]), build(case["B"])
     return {"ab": observe(comparer.compare(A, B)), "ba": observe(comparer.compare(B, A)),
             "aa": observe(comparer.compare(A, A))}
